@@ -386,3 +386,13 @@ package j5convert
 //@   loop 0 invariant forall i int {tn.Methods[i]} :: 0 <= i && i < len(tn.Methods) ==> tn.Methods[i] != nil
 //@   loop 0 invariant forall j int {desc.Method[j]} :: 0 <= j && j < $iter ==> desc.Method[j] != nil && *desc.Method[j].Name == tn.Methods[j].Name
 //@   |   && *desc.Method[j].InputType == tn.Methods[j].Request && *desc.Method[j].OutputType == ".google.protobuf.Empty"
+
+// ---- list rules of float fields (C04): written under the arm the reader takes them from ---------------------
+// FLOAT32 -> (j5.list.v1.field).float, FLOAT64 -> (j5.list.v1.field).double, the rules message itself carried.
+//@ spec func floatSch(node sourcewalk.FieldNode) *schema_j5pb.FloatField = as(*schema_j5pb.Field_Float, node.Schema).Float
+//@ spec func lrules(o *descriptorpb.FieldOptions) *list_j5pb.FieldConstraint = extof(list_j5pb.E_Field, o)
+//@ func buildField
+//@   ensures float.list32: result1 == nil && typeis(node.Schema, *schema_j5pb.Field_Float) && floatSch(node).ListRules != nil && floatSch(node).Format == schema_j5pb.FloatField_FORMAT_FLOAT32 ==>
+//@   |   lrules(result0.Options) != nil && typeis(lrules(result0.Options).Type, *list_j5pb.FieldConstraint_Float) && as(*list_j5pb.FieldConstraint_Float, lrules(result0.Options).Type).Float == floatSch(node).ListRules
+//@   ensures float.list64: result1 == nil && typeis(node.Schema, *schema_j5pb.Field_Float) && floatSch(node).ListRules != nil && floatSch(node).Format == schema_j5pb.FloatField_FORMAT_FLOAT64 ==>
+//@   |   lrules(result0.Options) != nil && typeis(lrules(result0.Options).Type, *list_j5pb.FieldConstraint_Double) && as(*list_j5pb.FieldConstraint_Double, lrules(result0.Options).Type).Double == floatSch(node).ListRules
